@@ -108,6 +108,45 @@ fn check(ctx: &mut Ctx, f: Fmt, nd: &ND, family: &str) {
     }
 }
 
+/// all non-empty suffixes of the format's keywords (the keywords themselves included)
+fn keyword_tails(f: Fmt) -> Vec<String> {
+    let mut tails: Vec<String> = vec![];
+    for k in keywords(f.e()) {
+        let cs: Vec<char> = k.chars().collect();
+        for cut in 0..cs.len() {
+            tails.push(cs[cut..].iter().collect());
+        }
+    }
+    tails.sort();
+    tails.dedup();
+    tails
+}
+
+/// `text` as every second line of one `parse_multi` batch, each time right after `text + tail + "A"`
+fn shadow_failure(f: Fmt, tails: &[String], text: &str, want: &str) -> Option<String> {
+    let r = observe(|| {
+        let lines: Vec<String> = tails.iter().flat_map(|k| [format!("{}{}A", text, k), text.to_string()]).collect();
+        let rs = f.e().parse_multi(lines.iter().map(|x| x.as_str()));
+        if rs.len() != lines.len() {
+            return Some(format!("{} results for {} inputs", rs.len(), lines.len()));
+        }
+        for (i, r) in rs.iter().enumerate().filter(|(i, _)| i % 2 == 1) {
+            let got = match r {
+                Ok(v) => canon_real_narsese(v),
+                Err(e) => format!("Err({})", e.to_string().chars().take(80).collect::<String>()),
+            };
+            if got != want {
+                return Some(format!("parse_multi([{:?}, {:?}])[1] = {} (expected {}; alone the line parses to it)", lines[i - 1], lines[i], got, want));
+            }
+        }
+        None
+    });
+    match r {
+        Obs::Ret(w) => w,
+        Obs::Panic(p) => Some(format!("parse_multi panicked on a shadowed batch of {:?}: {}", text, p)),
+    }
+}
+
 pub fn adversarial_cases(f: Fmt) -> Vec<ND> {
     let mut out = vec![];
     for (i, n) in adversarial_names(f).iter().enumerate() {
@@ -250,6 +289,42 @@ pub fn run(ctx: &mut Ctx) {
             );
         }
     }
+    // (6) every formatted value as a line of a `parse_multi` batch right after a *longer* line that
+    //     continues it with a tail of one of the format's keywords (`x现` after `x现得A`): whatever the
+    //     parser keeps of the previous line - a buffer that is overwritten but not shortened - must not
+    //     complete a keyword behind the end of the current one.  Only values whose plain round trip
+    //     holds are used (the others are family 2's business), so the batch is the only difference.
+    for f in ALL_FMT {
+        let tails = keyword_tails(f);
+        let base = base_atoms(&["A", "B"]);
+        let mut cases: Vec<ND> = adversarial_cases(f);
+        cases.extend(universe_over(&base, 2, false).into_iter().take(300).enumerate().map(|(i, t)| wrap_rotating(t, i)));
+        for nd in cases {
+            idx += 1;
+            if !ctx.mine(idx) {
+                continue;
+            }
+            if roundtrip_failure(f, &nd).is_some() {
+                continue;
+            }
+            let text = match enum_format(f, &nd.build()) {
+                Ok(t) => t,
+                Err(_) => continue,
+            };
+            let want = nd.canon();
+            ctx.report.eval();
+            ctx.report.bump("family.after-a-longer-line-in-one-batch");
+            ctx.report.nontrivial(&format!("{}|shadowed|{}", f.name(), want));
+            let why = shadow_failure(f, &tails, &text, &want);
+            if let Some(w) = why {
+                ctx.report.violate(
+                    format!("C01|{}|shadowed|{}", f.name(), want),
+                    format!("[{}] round trip through one batch fails: {}", f.name(), w),
+                    J::obj().set("format", f.name()).set("value", nd.to_json()).set("shadowed", true).set("why", w.clone()),
+                );
+            }
+        }
+    }
     ctx.report.note(
         "rule",
         "a case = (format, value description); non-trivial = the value is not a bare atom term; distinct = distinct (format, canonical form)",
@@ -269,6 +344,14 @@ pub fn replay(ctx: &mut Ctx, d: &J) -> Option<()> {
     }
     if d.get("big_batch").is_some() {
         super::rerun_fixed(ctx);
+        return Some(());
+    }
+    if d.get("shadowed").is_some() {
+        let nd = nd_from_json(d.get("value")?)?;
+        let text = enum_format(f, &nd.build()).ok()?;
+        if let Some(w) = shadow_failure(f, &keyword_tails(f), &text, &nd.canon()) {
+            ctx.report.violate(format!("C01|{}|shadowed|{}", f.name(), nd.canon()), w, d.clone());
+        }
         return Some(());
     }
     let nd = nd_from_json(d.get("value")?)?;
